@@ -248,7 +248,8 @@ PROPS["C07"]["thorough_engines"] = [_hist("supervisor", sc, "C07", w) for sc, w 
     ("control_queued_behind_delete_resolves", "the ticket of a control queued behind delete() resolves when the job task ends"),
     ("graceful_stop_kills_at_expiry_after_handles_dropped", "a graceful stop whose grace runs out after the last Job handle was dropped still kills the process and resolves its ticket (D18)"),
     ("pending_controls_run_after_handles_dropped", "controls queued before the last Job handle was dropped are run, in order, each once, and their tickets resolve (D18; 10 rounds)"),
-    ("compound_ticket_is_the_last_controls", "the ticket of restart() / restart_with_signal() / delete() is the ticket of the LAST control sent: it resolves only once the fresh process has been hooked and spawned / the job task has ended")]]
+    ("compound_ticket_is_the_last_controls", "the ticket of restart() / restart_with_signal() / delete() is the ticket of the LAST control sent: it resolves only once the fresh process has been hooked and spawned / the job task has ended"),
+    ("huge_grace_does_not_panic_the_job_task", "stop_with_signal / restart_with_signal with Duration::MAX as grace do not panic the job task; their tickets resolve when the process ends (D19: the one place where the 'mathematical time arithmetic' assumption of the proofs was false on the real code)")]]
 # "delivers the requested signal": the job task hands the requested Signal to Signal::to_nix (a stand-in in unit task); that the conversion yields that very OS
 # signal is the Kani obligation C19+C06.signal_to_nix.number_preserved on the real function
 PROPS["C06"]["engines"] = PROPS["C06"].get("engines", []) + [_kani.make_engine("signals")]
